@@ -368,6 +368,73 @@ scenarios:
 	res.Count("scenario_pools", 1)
 }
 
+// runSlowScenario: the configured timeout bounds each call, not the scenario: four calls with
+// 900 ms pauses between them and a 2.5 s timeout must all reach the server, although the fourth
+// one starts 2.7 s after the first. A failed attempt is repeated (a single call that really
+// takes longer than 2.5 s on a loaded machine is not a defect); the verdict is on three attempts.
+func runSlowScenario(res *vkit.Result) {
+	c := Case{Kind: "scenario-slow", Instances: 2, TimeoutMs: 2500, Shots: 2}
+	yaml := `calls:
+  - name: "h"
+    tag: "hello"
+    call: "target.TargetService.Hello"
+    payload: '{"name": "slow"}'
+    metadata: {"x-step": "h"}
+scenarios:
+  - name: "s1"
+    weight: 1
+    min_waiting_time: 0
+    requests: ["h", "sleep(900)", "h", "sleep(900)", "h", "sleep(900)", "h"]
+`
+	base := vkit.WriteMem(nil)
+	vkit.RemoveMem(base)
+	path := base + ".yaml"
+	_ = vkit.WriteMemAt(path, []byte(yaml))
+	defer vkit.RemoveMem(path)
+	var problem string
+	for attempt := 0; attempt < 3; attempt++ {
+		problem = ""
+		tgt.ResetCalls()
+		ec, err := vkit.DecodePools(map[string]any{"pools": []any{map[string]any{
+			"id": "p", "ammo": map[string]any{"type": "grpc/scenario", "file": path, "limit": c.Shots}, "result": map[string]any{"type": "discard"},
+			"gun": gunConf(c, "grpc/scenario"), "rps": map[string]any{"type": "once", "times": c.Shots},
+			"startup": map[string]any{"type": "once", "times": c.Instances},
+		}}})
+		if err != nil {
+			res.Violate("C20/scenario-slow/rejected", fmt.Sprintf("valid pool config rejected: %v", err), c)
+			return
+		}
+		aggr := &vkit.MockAggregator{}
+		ec.Pools[0].Aggregator = aggr
+		rr := vkit.RunEngine(ec, nil, 60*time.Second)
+		if rr.Hang {
+			res.Inconclusive(false, "slow grpc scenario pool did not end within 60s")
+			return
+		}
+		if rr.Err != nil {
+			res.Violate("C20/scenario-slow/run-error", fmt.Sprintf("run ended with %v", rr.Err), c)
+			return
+		}
+		calls := tgt.Calls()
+		failed := 0
+		for _, s := range aggr.Snapshot() {
+			if s.Proto != 200 {
+				failed++
+			}
+		}
+		if len(calls) != 4*c.Shots || failed > 0 {
+			problem = fmt.Sprintf("%d shots of 4 calls (900 ms apart, timeout %d ms per call): %d calls reached the server, %d of %d samples failed", c.Shots, c.TimeoutMs, len(calls), failed, len(aggr.Snapshot()))
+			continue
+		}
+		res.Count("calls_matched", int64(len(calls)))
+		break
+	}
+	if problem != "" {
+		res.Violate("C20/scenario-slow/arrival", problem+" (3 attempts)", c)
+	}
+	res.Eval(vkit.JSON(c), true)
+}
+
 func main() {
 	vkit.Fs()
 	res := vkit.NewResult("grpc/json pools: 3–12 entries over Hello/Auth/List/Order of the example service with generated field combinations (unicode/quotes in strings, int64 as numbers within ±2^53 and as strings beyond), metadata maps, unknown methods / ill-typed payloads / unknown fields interleaved with good entries, shared-client on/off, 1–8 instances, configured timeout; grpc/scenario pools: two chained calls with payload and metadata templated from a csv row ([next]) and a value captured from the first response; distinct = distinct case descriptions; non-trivial = ≥ 2 entries or shots")
@@ -407,6 +474,7 @@ func main() {
 			res.Sample(c)
 		}
 	}
+	runSlowScenario(res)
 	vkit.CheckRaceLog(res, "C20")
 	if res.Counter("calls_matched") < 100 || res.Counter("bad_entries") < 5 || res.Counter("scenario_pools") < 5 {
 		res.Inconclusive(true, "too few calls matched")
